@@ -201,3 +201,20 @@ func init() {
 		judgeC18Corrupt(rep, items, runIsolated(ctx, "c18", items, 1, 1, rep))
 	}}
 }
+
+func init() {
+	Registry["C13"] = Monitor{Run: RunC13, Replay: func(ctx *core.Ctx, rep *core.Report, w map[string]any) {
+		idx, ok := witnessInt(w, "case")
+		if !ok {
+			RunC13(ctx, rep)
+			return
+		}
+		c := c13Case(ctx.Seed, idx)
+		a, e1 := hashOutput(c, false)
+		b, e2 := hashOutput(c, true)
+		rep.Eval(1)
+		if e1 != nil || e2 != nil || a != b {
+			rep.Violate("map-order-dependence", fmt.Sprintf("%s: %s vs %s (%v %v)", c.Describe(), a, b, e1, e2), c.Witness())
+		}
+	}}
+}
